@@ -22,7 +22,8 @@ RULE = ("grid = every suite id in CipherSuite.ietfNames x versions SSLv3.."
         "= pos cells that completed and had every sub-oracle evaluated, "
         "negative cells that produced a definite refusal"
         " Extra cases: resume_other (TLS 1.3 session of suite A offered where only suite B can be negotiated: a PSK of another hash must not be accepted) and dualcert (RSA+ECDSA server via virtual_hosts x client signature-algorithm / suite restrictions: key type of the certificate on the wire == the suite's)."
-        ' odd_dh: master secret recomputed (model/prf.py) from the tapped premaster secret of a DHE handshake over a 1032-bit safe prime (odd-length secret, RFC 2246 s5).')
+        ' odd_dh: master secret recomputed (model/prf.py) from the tapped premaster secret of a DHE handshake over a 1032-bit safe prime (odd-length secret, RFC 2246 s5).'
+        ' resume_other: after the second handshake session accessors must name the negotiated suite on both ends and data must flow after a KeyUpdate in each direction.  dualcert also with single-certificate servers of every key type (RSA, RSA-PSS, ECDSA P-256/P-384, Ed25519, Ed448, DSA) x client restrictions.')
 LEVEL_TEXT = ("Exhaustive over the (suite, version, case) grid in both tiers "
               "(each cell is one deterministic simulated handshake plus a "
               "short data exchange); the thorough tier repeats the grid under "
@@ -44,7 +45,9 @@ PROBES = ["pos", "wrongkey", "byz_client", "byz_server", "aead_keys_checked",
           "mac_checked", "finished_checked", "exporter_checked",
           "expansion_checked", "split_1n1", "keyupdate_keys_checked",
           "resume_other", "resume_same_hash", "resume_other_hash",
-          "dualcert", "dual_rsa", "dual_ecdsa", "odd_dh",
+          "keyupdate_after_second",
+          "dualcert", "dual_rsa", "dual_ecdsa", "odd_dh", "dual_ed25519",
+          "dual_ed448", "dual_dsa", "dual_rsapss",
           "premaster_odd", "premaster_even"]
 COMPONENTS_REAL = ["tlslite handshake + record layer + constants tables"]
 COMPONENTS_STUB = ["socket", "os.urandom", "clock",
@@ -123,6 +126,16 @@ def plan(tier, base_seed):
                                  "case": "dualcert", "rep": rep,
                                  "dual": [prim, alt, cl]})
                     i += 1
+        # single-certificate servers of every key type x the same client
+        # restrictions: a suite is only ever selected together with a
+        # certificate of the key type its name denotes
+        for prim in ("ed25519", "ed448", "dsa", "rsapss", "ecdsa", "rsa",
+                     "ecdsa384"):
+            for cl in DUAL_CLIENTS:
+                jobs.append({"seed": seed0 + i, "sid": 0, "ver": [3, 3],
+                             "case": "dualcert", "rep": rep,
+                             "dual": [prim, None, cl]})
+                i += 1
     for j in jobs[:3]:
         j["keep"] = True
     return jobs
@@ -188,6 +201,23 @@ DUAL_CLIENTS = {
 }
 OID_RSA = bytes.fromhex("06092a864886f70d010101")
 OID_EC = bytes.fromhex("06072a8648ce3d0201")
+OID_ED25519 = bytes.fromhex("06032b6570")
+OID_ED448 = bytes.fromhex("06032b6571")
+OID_DSA = bytes.fromhex("06072a8648ce380401")
+OID_RSAPSS = bytes.fromhex("06092a864886f70d01010a")
+# which end-entity key types an authentication family of a suite name admits
+# (EdDSA certificates are used with the ECDHE_ECDSA suites, RFC 8422 5.10)
+AUTH_KEYS = {"rsa": ("rsa", "rsapss"), "ecdsa": ("ecdsa", "ed25519", "ed448"),
+             "dsa": ("dsa",)}
+
+
+def ee_key_type(ee):
+    for oid, name in ((OID_ED25519, "ed25519"), (OID_ED448, "ed448"),
+                      (OID_DSA, "dsa"), (OID_EC, "ecdsa"),
+                      (OID_RSA, "rsa"), (OID_RSAPSS, "rsapss")):
+        if oid in ee:
+            return name
+    return "?"
 
 
 def run_dualcert(job, ch, seed, policy, v, viol, probes):
@@ -197,7 +227,7 @@ def run_dualcert(job, ch, seed, policy, v, viol, probes):
     prim, alt, cl = job["dual"]
     ver = tuple(job["ver"])
     sc = {"version": list(ver), "flavour": "cert", "skey": prim,
-          "alt_skeys": [alt],
+          "alt_skeys": [alt] if alt else [],
           "cset": dict({"minVersion": list(ver), "maxVersion": list(ver)},
                        **DUAL_CLIENTS[cl]),
           "sset": {"minVersion": list(ver), "maxVersion": list(ver)}}
@@ -227,9 +257,9 @@ def run_dualcert(job, ch, seed, policy, v, viol, probes):
         body = certs[0][4:]
         ln = int.from_bytes(body[3:6], "big")
         ee = bytes(body[6:6 + ln])
-        kt = "rsa" if OID_RSA in ee else ("ecdsa" if OID_EC in ee else "?")
+        kt = ee_key_type(ee)
         probes["dual_" + kt] = 1
-        if auth in ("rsa", "ecdsa") and kt != auth:
+        if auth in AUTH_KEYS and kt not in AUTH_KEYS[auth]:
             v("wrong_key_type", "dualcert|%s|%s" % (auth, kt),
               "ServerHello selected %s (authentication: %s) but the "
               "certificate sent carries a %s key [server %s+%s, client %s, "
@@ -246,7 +276,7 @@ def run_dualcert(job, ch, seed, policy, v, viol, probes):
                                                where(o.exc)),
               "handshake raised %r [server %s+%s, client %s, ver %s]" %
               (o.exc, prim, alt, cl, ver))
-    if cl == "default" and not both:
+    if cl == "default" and not both and alt:
         v("handshake", "dualcert|default", "default client could not "
           "connect to a dual-certificate server: %r %r" % (oc.exc, os_.exc))
     return _result(job, ch, sim, pair, viol, probes, both, "dual")
@@ -311,6 +341,39 @@ def run_resume_other(job, ch, seed, policy, v, viol, probes):
     elif obs["sh"]["suite"] != b:
         v("suite", "second", "negotiated %#x, only %#x was offered" %
           (obs["sh"]["suite"], b))
+    else:
+        how = "resumed" if resumed else "full"
+        for w, ep in (("client", pair2.c), ("server", pair2.s)):
+            if ep.conn.session.cipherSuite != b:
+                v("accessor", "session_suite|%s|%s" % (w, how),
+                  "%s: session.cipherSuite %#x after a %s handshake that "
+                  "negotiated %#x" % (w, ep.conn.session.cipherSuite, how,
+                                      b))
+            elif ep.conn.session.getCipherName() != ep.conn.getCipherName():
+                v("accessor", "cipher_name|%s|%s" % (w, how),
+                  "%s: session says %r, connection says %r" % (
+                      w, ep.conn.session.getCipherName(),
+                      ep.conn.getCipherName()))
+        # the keys in use after a KeyUpdate are still those of the suite
+        eps2 = {"c": pair2.c, "s": pair2.s}
+        st2 = sim_script.run_script(
+            sim, eps2,
+            [["c", "ku"], ["c", "w"], ["s", "r"], ["s", "ku"], ["s", "w"],
+             ["c", "r"]],
+            lambda ep, op: {
+                "ku": lambda: ep.conn.send_keyupdate_request(1),
+                "w": lambda: ep.conn.writeAsync(b"after"),
+                "r": lambda: ep.conn.readAsync(None, 5)}[op[1]])
+        bad = [(w, o.desc, o.exc) for w in "cs" for o in eps2[w].history[1:]
+               if o.kind == "exc"]
+        rd = [bytes(o.value) for w in "cs" for o in eps2[w].history[1:]
+              if o.kind == "ok" and o.desc[0] == "r"]
+        if bad or st2 != "idle" or rd != [b"after", b"after"]:
+            v("keyupdate", "after_%s|%s" % (how, "same" if same else
+                                            "other"),
+              "data exchange after KeyUpdate on the %s connection failed: "
+              "%r status=%s reads=%r" % (how, bad, st2, rd))
+        probes["keyupdate_after_second"] = 1
     return _result(job, ch, sim, pair2, viol, probes, True, "ro")
 
 
